@@ -1816,6 +1816,13 @@ class Transaction(object):
             sig_domain = [''] * n_total_sigs
 
             txid = self.signature_hash(tid, hash_type, self.inputs[tid].witness_type)
+            for sig in self.inputs[tid].signatures:
+                if not sig.public_key:
+                    # Signature parsed from a raw transaction: find out which key it belongs to
+                    for k in self.inputs[tid].keys:
+                        if verify(txid, deepcopy(sig), k):
+                            sig.public_key = k
+                            break
             for key in tid_keys:
                 # Check if signature signs known key and is not already in list
                 if key.public_byte not in pub_key_list:
@@ -1841,12 +1848,6 @@ class Transaction(object):
             # Add already known signatures on correct position
             n_sigs_to_insert = len(self.inputs[tid].signatures)
             for sig in self.inputs[tid].signatures:
-                if not sig.public_key:
-                    # Signature parsed from a raw transaction: find out which key it belongs to
-                    for k in self.inputs[tid].keys:
-                        if verify(txid, deepcopy(sig), k):
-                            sig.public_key = k
-                            break
                 if not sig.public_key:
                     break
                 newsig_pos = pub_key_list.index(sig.public_key.public_byte)
